@@ -1,90 +1,46 @@
 #!/venv/bin/python
-"""Regenerate coq/theories/Gen/Tables.v from the CURRENT /repo source.
+"""Regenerate coq/theories/Gen/*.v from the CURRENT canopen source (tie (a) of DESIGN.md section 4.1).
 
-Run in a fresh interpreter with PYTHONPATH=/repo.  Fail-closed: any table whose
-shape is not the one the translator knows raises and the generation fails, in
-which case the caller reports the property as no longer shown.
+Run in a fresh interpreter; imports canopen from $CANOPEN_REPO (default /repo).  Each module in
+tools/tables/ reads constants / tables from the imported library and prints them as Gallina.
+Fail-closed: a generator that does not recognise the shape of its table raises; its output file
+is then removed, so everything that depends on it no longer builds and the properties concerned
+are reported as no longer shown.
+Usage: gen_tables.py [name ...]   (default: all)
 """
-import os, struct, sys
+import importlib, os, pkgutil, sys, traceback
 
+HERE = os.path.dirname(os.path.abspath(__file__))
 REPO = os.environ.get("CANOPEN_REPO", "/repo")
 sys.path.insert(0, REPO)
+sys.path.insert(0, HERE)
 import canopen  # noqa: E402
 assert os.path.realpath(canopen.__file__).startswith(os.path.realpath(REPO) + "/"), canopen.__file__
+OUTDIR = os.path.join(HERE, "..", "coq", "theories", "Gen")
+os.makedirs(OUTDIR, exist_ok=True)
 
-OUT = os.path.join(os.path.dirname(os.path.abspath(__file__)), "..", "coq", "theories", "Gen", "Tables.v")
-
-out = []
-def emit(s=""): out.append(s)
-
-def z(n):
-    if isinstance(n, bool) or not isinstance(n, int):
-        raise TypeError(f"not an int: {n!r}")
-    return f"({n})" if n < 0 else str(n)
-def zlist(l): return "[" + "; ".join(z(x) for x in l) + "]"
-def cstr(s):
-    if not isinstance(s, str): raise TypeError(f"not a str: {s!r}")
-    for ch in s:
-        if not (32 <= ord(ch) < 127): raise ValueError(f"non-printable in {s!r}")
-    return '"' + s.replace('"', '""') + '"'
-def cbool(b):
-    if not isinstance(b, bool): raise TypeError(b)
-    return "true" if b else "false"
-
-emit("(* GENERATED by tools/gen_tables.py from /repo -- do not edit. *)")
-emit("From Coq Require Import ZArith List String.")
-emit("From CV Require Import Base.Tys.")
-emit("Import ListNotations.")
-emit("Open Scope Z_scope.")
-emit("Open Scope string_scope.")
-emit()
-
-# ---------------------------------------------------------------- datatypes
-from canopen.objectdictionary import datatypes as dt
-from canopen.objectdictionary import ODVariable
-emit("(* objectdictionary/datatypes.py *)")
-DT_NAMES = ["BOOLEAN", "INTEGER8", "INTEGER16", "INTEGER32", "UNSIGNED8", "UNSIGNED16", "UNSIGNED32",
-            "REAL32", "VISIBLE_STRING", "OCTET_STRING", "UNICODE_STRING", "TIME_OF_DAY", "TIME_DIFFERENCE",
-            "DOMAIN", "INTEGER24", "REAL64", "INTEGER40", "INTEGER48", "INTEGER56", "INTEGER64",
-            "UNSIGNED24", "UNSIGNED40", "UNSIGNED48", "UNSIGNED56", "UNSIGNED64"]
-for n in DT_NAMES:
-    emit(f"Definition dt_{n} : Z := {z(getattr(dt, n))}.")
-for n in ["SIGNED_TYPES", "UNSIGNED_TYPES", "INTEGER_TYPES", "FLOAT_TYPES", "NUMBER_TYPES", "DATA_TYPES"]:
-    v = getattr(dt, n)
-    if not isinstance(v, tuple): raise TypeError(n)
-    emit(f"Definition {n} : list Z := {zlist(list(v))}.")
-
-STRUCT_FMT = {"b": (True, 8), "<h": (True, 16), "<l": (True, 32), "<q": (True, 64),
-              "B": (False, 8), "<H": (False, 16), "<L": (False, 32), "<Q": (False, 64),
-              "h": (True, 16), "l": None, "q": None}  # native-size formats are not accepted
-def packer(s):
-    if type(s) is dt.IntegerN:
-        return f"PIntN {z(s.width)}"
-    if type(s) is dt.UnsignedN:
-        return f"PUintN {z(s.width)}"
-    if type(s) is struct.Struct:
-        f = s.format
-        if f == "?": return "PBool"
-        if f == "<f": return "PReal 32"
-        if f == "<d": return "PReal 64"
-        e = STRUCT_FMT.get(f)
-        if e is None: raise ValueError(f"unknown struct format {f!r}")
-        if struct.calcsize(f) * 8 != e[1]: raise ValueError(f)
-        return f"PStruct {cbool(e[0])} {e[1]}"
-    raise TypeError(f"unknown packer {s!r}")
-emit("Definition STRUCT_TYPES : list (Z * packer) := [")
-emit(";\n".join(f"  ({z(k)}, {packer(v)})" for k, v in ODVariable.STRUCT_TYPES.items()))
-emit("].")
-emit()
-
-#SECTIONS#
-
-text = "\n".join(out) + "\n"
-os.makedirs(os.path.dirname(OUT), exist_ok=True)
-old = open(OUT).read() if os.path.exists(OUT) else None
-if old != text:
-    with open(OUT + ".tmp", "w") as f: f.write(text)
-    os.replace(OUT + ".tmp", OUT)
-    print("Tables.v regenerated (changed)")
-else:
-    print("Tables.v unchanged")
+import tables  # noqa: E402
+names = [m.name for m in pkgutil.iter_modules(tables.__path__) if not m.name.startswith("_")]
+if len(sys.argv) > 1:
+    names = [n for n in names if n in sys.argv[1:]]
+failed = 0
+for n in sorted(names):
+    mod = importlib.import_module(f"tables.{n}")
+    out = os.path.join(OUTDIR, mod.OUTPUT)
+    try:
+        text = mod.generate()
+    except Exception:
+        failed += 1
+        print(f"FAILED {n}: {traceback.format_exc(limit=3)}")
+        for p in (out, out + "o"):
+            if os.path.exists(p): os.remove(p)
+        continue
+    old = open(out).read() if os.path.exists(out) else None
+    if old != text:
+        with open(out + ".tmp", "w") as f: f.write(text)
+        os.replace(out + ".tmp", out)
+        print(f"{mod.OUTPUT} regenerated (changed)")
+    else:
+        print(f"{mod.OUTPUT} unchanged")
+print(f"tables: {len(names)} generators, {failed} failed")
+sys.exit(0)
